@@ -83,7 +83,7 @@ def gen_program(rnd, cap, N, ncmd):
                 continue
             v = rnd.choice(sorted(present))
             prog.append(('PUT', ref_of(v), rnd.choice([1, 2, 3, 8, 9])))
-    return prog
+    return prog, dict(vars_)
 
 
 # ====================================================================== rendering
@@ -95,16 +95,19 @@ class Text:
         s.nws = 0
         s.skel = []           # human-readable skeleton
         s.dom = {}
+        s.tags = []           # what each byte is (positions for the single-fault obligation are drawn per category)
 
-    def lit(s, b):
+    def lit(s, b, tag='other'):
         if isinstance(b, str):
             b = b.encode('utf-8')
         s.cells += list(b)
+        s.tags += [tag] * len(b)
         s.skel.append(b.decode('utf-8'))
 
-    def sym(s, name, allowed_pred, show='?'):
+    def sym(s, name, allowed_pred, show='?', tag='other'):
         v = z3.BitVec(name, 8)
         s.cells.append((v, 0))
+        s.tags.append(tag)
         s.cons.append(allowed_pred(v))
         s.skel.append(show)
         # the byte's domain, by evaluating the constraint on all 256 values (used by the executor for table lookups)
@@ -112,7 +115,7 @@ class Text:
         return v
 
 
-def render(prog, rnd, max_symws=2, nu='ν'):
+def render(prog, rnd, max_symws=2, nu='ν', pfx=''):
     """returns (Text, api): api = [(op, ...)] with labels as SymLabel-like constant/term triples and data as byte terms"""
     t = Text()
     api = []
@@ -120,47 +123,50 @@ def render(prog, rnd, max_symws=2, nu='ν'):
 
     def nm(p):
         uid[0] += 1
-        return '%s%d' % (p, uid[0])
+        return '%s%s%d' % (pfx, p, uid[0])
 
     def ws(allow_empty=True, spaces_only=False):
         r = rnd.random()
         if r < 0.35 and allow_empty:
             return
         if spaces_only:
-            t.lit(' ' * rnd.randint(1, 2))
+            t.lit(' ' * rnd.randint(1, 2), 'ws')
             return
         if r < 0.6 and t.nws < max_symws:
             t.nws += 1
-            t.sym(nm('ws'), lambda v: z3.Or(*[v == x for x in WS]), '␣')
+            t.sym(nm('ws'), lambda v: z3.Or(*[v == x for x in WS]), '␣', 'ws')
             return
-        t.lit(rnd.choice([' ', '  ', '\n', '\t', ' \n ', '\r\n']))
+        t.lit(rnd.choice([' ', '  ', '\n', '\t', ' \n ', '\r\n']), 'ws')
 
     def comment():
         if rnd.random() < 0.3:
-            t.lit('#')
+            t.lit('#', 'hash')
             # comment text is concrete: a symbolic byte after '#' drives regex-automata's lazy DFA with a symbolic state
             # (every later table lookup is then indexed by a term over several bytes) -- outside the claim
-            t.lit(''.join(rnd.choice('abc #;()$,-\t') for _ in range(rnd.randint(0, 4))))
-            t.lit(rnd.choice([' note', '', ' ADD(9);']))
-            t.lit('\n')
+            t.lit(''.join(rnd.choice('abc #;()$,-\t') for _ in range(rnd.randint(0, 4))), 'cmt')
+            t.lit(rnd.choice([' note', '', ' ADD(9);']), 'cmt')
+            t.lit('\n', 'nl')
 
     def ref(r):
         if r[0] == 'lit':
-            t.lit((nu if rnd.random() < 0.5 else '') + str(r[1]))
+            if rnd.random() < 0.5:
+                t.lit(nu, 'nu')
+            t.lit(str(r[1]), 'id')
         else:
-            t.lit('$' + r[1])
+            t.lit('$', 'dollar')
+            t.lit(r[1], 'varname')
 
     for cmd in prog:
         ws()
         comment()
-        t.lit(cmd[0])
+        t.lit(cmd[0], 'name')
         ws(spaces_only=True)
-        t.lit('(')
+        t.lit('(', 'open')
         if cmd[0] == 'ADD':
             ws(); ref(cmd[1]); ws()
             api.append(('ADD', cmd[1]))
         elif cmd[0] == 'BIND':
-            ws(); ref(cmd[1]); ws(); t.lit(','); ws(); ref(cmd[2]); ws(); t.lit(','); ws()
+            ws(); ref(cmd[1]); ws(); t.lit(',', 'comma'); ws(); ref(cmd[2]); ws(); t.lit(',', 'comma'); ws()
             lab = cmd[3]
             if lab[0] == 'str':
                 # each character: any upper-case letter, or any other printable ASCII character but the structural ones (the
@@ -168,13 +174,13 @@ def render(prog, rnd, max_symws=2, nu='ν'):
                 chars = []
                 for _ in range(lab[1]):
                     if rnd.random() < 0.2:
-                        chars.append(t.sym(nm('lc'), lambda v: z3.And(z3.UGE(v, 0x41), z3.ULE(v, 0x5A)), 'C'))
+                        chars.append(t.sym(nm('lc'), lambda v: z3.And(z3.UGE(v, 0x41), z3.ULE(v, 0x5A)), 'C', 'lab'))
                     else:
-                        chars.append(t.sym(nm('lc'), lambda v: z3.And(z3.UGE(v, 0x21), z3.ULE(v, 0x7E), z3.Or(z3.ULT(v, 0x41), z3.UGT(v, 0x5A)), *[v != x for x in STRUCT]), 'c'))
+                        chars.append(t.sym(nm('lc'), lambda v: z3.And(z3.UGE(v, 0x21), z3.ULE(v, 0x7E), z3.Or(z3.ULT(v, 0x41), z3.UGT(v, 0x5A)), *[v != x for x in STRUCT]), 'c', 'lab'))
                 api.append(('BIND', cmd[1], cmd[2], ('str', chars)))
             elif lab[0] == 'alpha':
-                t.lit('α')
-                ds = [t.sym(nm('ld'), lambda v: z3.And(z3.UGE(v, 0x30), z3.ULE(v, 0x39)), '9') for _ in range(lab[1])]
+                t.lit('α', 'alpha')
+                ds = [t.sym(nm('ld'), lambda v: z3.And(z3.UGE(v, 0x30), z3.ULE(v, 0x39)), '9', 'labdigit') for _ in range(lab[1])]
                 api.append(('BIND', cmd[1], cmd[2], ('alpha', ds)))
             else:
                 b0 = t.sym(nm('g0'), lambda v: z3.And(z3.UGE(v, 0xC2), z3.ULE(v, 0xDF)), 'G')
@@ -184,7 +190,7 @@ def render(prog, rnd, max_symws=2, nu='ν'):
                 api.append(('BIND', cmd[1], cmd[2], ('greek', cp)))
             ws()
         else:
-            ws(); ref(cmd[1]); ws(); t.lit(','); ws()
+            ws(); ref(cmd[1]); ws(); t.lit(',', 'comma'); ws()
             n = cmd[2]
             sep = rnd.choice(['-', '', ' ', '-'])
             bs = []
@@ -193,20 +199,21 @@ def render(prog, rnd, max_symws=2, nu='ν'):
                 for h in range(2):
                     rng = rnd.choice(['d', 'l', 'u'])
                     lo, hi, off = {'d': (0x30, 0x39, 0x30), 'l': (0x61, 0x66, 0x57), 'u': (0x41, 0x46, 0x37)}[rng]
-                    v = t.sym(nm('hx'), lambda v, lo=lo, hi=hi: z3.And(z3.UGE(v, lo), z3.ULE(v, hi)), {'d': '9', 'l': 'f', 'u': 'F'}[rng])
+                    v = t.sym(nm('hx'), lambda v, lo=lo, hi=hi: z3.And(z3.UGE(v, lo), z3.ULE(v, hi)), {'d': '9', 'l': 'f', 'u': 'F'}[rng], ('hexhi', 'hexlo')[h])
                     nib.append(v - off)
                 bs.append((nib[0] << 4) | nib[1])
                 if k + 1 < n:
-                    t.lit(sep)
+                    t.lit(sep, 'hexsep')
             api.append(('PUT', cmd[1], bs))
             ws()
-        t.lit(')')
+        t.lit(')', 'close')
         ws()
-        t.lit(';')
+        t.lit(';', 'semi')
     if rnd.random() < 0.3:
         # the last semicolon is optional
         while t.cells and t.cells[-1] == 0x3B:
             t.cells.pop()
+            t.tags.pop()
             t.skel.pop()
             break
     ws()
@@ -308,8 +315,17 @@ def _abstract(w, vm, st, N, cap):
     A['P'] = [to_bv(w.pers(st, i), 8) for i in range(cap)]
     A['E'] = [to_bv(w.elen(st, i), 64) for i in range(cap)]
     A['tgt'] = [[to_bv(w.etgt(st, i, j), 64) for j in range(N)] for i in range(cap)]
-    A['lab'] = [[decode_label(c, st, w.a_ekey(i, j)) if vm.feasible(st, z3.And(A['T'][i] != 0, z3.UGT(A['E'][i], j))) else None for j in range(N)] for i in range(cap)]
-    A['dat'] = [decode_hex(c, st, w.a_data(i)) if vm.feasible(st, z3.And(A['T'][i] != 0, A['P'][i] != EMPTY)) else None for i in range(cap)]
+    used = lambda i, j: z3.And(A['T'][i] != 0, z3.UGT(A['E'][i], j))
+    A['lab'] = [[decode_label(c, st, w.a_ekey(i, j), used(i, j)) if vm.feasible(st, used(i, j)) else None for j in range(N)] for i in range(cap)]
+    A['dat'] = []
+    for i in range(cap):
+        hd = z3.And(A['T'][i] != 0, A['P'][i] != EMPTY)
+        if vm.feasible(st, hd):
+            sd = st.fork()
+            sd.assume(hd)
+            A['dat'].append(decode_hex(c, sd, w.a_data(i)))
+        else:
+            A['dat'].append(None)
     A['cnt'] = [to_bv(w.cnt(st, b), 64) for b in range(NSLOT)]
     A['ctr'] = [to_bv(w.ctr(st, b), 64) for b in range(NSLOT)]
     A['items'] = [[to_bv(w.item(st, b, k), 64) for k in range(min(cap, NSLOT))] for b in range(NSLOT)]
@@ -488,14 +504,63 @@ def _conc_api(api, model):
     return out
 
 
-def ob_script(env, N, cap, seed, ncmd):
+def split_program(prog, vars_, k):
+    """the first k commands become a prefix applied through the API before the script runs; a variable the prefix
+    defines is a literal id in the script part (the script's own variable table starts empty)"""
+    pre, rest = prog[:k], prog[k:]
+    defined = {r[1] for c in pre for r in c[1:] if isinstance(r, tuple) and r and r[0] == 'var'}
+
+    def fix(r):
+        if isinstance(r, tuple) and r and r[0] == 'var' and r[1] in defined:
+            return ('lit', vars_[r[1]])
+        return r
+    return pre, [tuple(fix(x) for x in c) for c in rest]
+
+
+def ob_script(env, N, cap, seed, ncmd, prefix=0):
     rnd = random.Random(seed)
-    prog = gen_program(rnd, cap, N, ncmd)
+    prog, vars_ = gen_program(rnd, cap, N, ncmd + prefix)
+    pre, prog = split_program(prog, vars_, prefix)
     t, api = render(prog, rnd, max_symws=(2 if ncmd <= 3 else 1))
     w, vm, st = _setup(env, N, cap)
+    doms = dict(t.dom)
+    if pre:
+        # a non-empty start: the prefix (symbolic labels and data of its own) is applied through the API; every state it
+        # can end in is a start state for both runs
+        tp, api_pre = render(pre, rnd, max_symws=0, pfx='pre.')
+        for cns in tp.cons:
+            st.assume(cns)
+        starts = [s for s, vt in _run_api(w, vm, st, api_pre)]
+
+        def pre_calls(model):
+            out, seen = [], set()
+            for c in _conc_api(api_pre, model):
+                for key in ('v', 'v1', 'v2'):
+                    if key in c:
+                        r = c[key]
+                        if r[0] == 'var':
+                            if r[1] not in seen:
+                                seen.add(r[1])
+                                out.append({'op': 'next_id'})
+                            c[key] = vars_[r[1]]
+                        else:
+                            c[key] = r[1]
+                if c['op'] == 'put':
+                    c['d'] = {'data': c['d']['data'], 'inline': len(c['d']['data']) <= 8}
+                out.append(c)
+            return out
+    else:
+        starts = [st]
+        pre_calls = None
+    for st in starts:
+        _script_from(env, N, cap, seed, prog, t, api, w, vm, st.fork(), doms, len(pre), len(starts), pre_calls)
+    env.account(w)
+
+
+def _script_from(env, N, cap, seed, prog, t, api, w, vm, st, doms, npre, nstarts, pre_calls=None):
     for cns in t.cons:
         st.assume(cns)
-    vm.opts['domains'] = dict(t.dom)
+    vm.opts['domains'] = doms
     buf = w.scratch(st, max(1, len(t.cells)), 'arg.text')
     st.mem.write_cells(buf, list(t.cells))
     err = w.scratch(st, 24, 'out.err')
@@ -511,13 +576,13 @@ def ob_script(env, N, cap, seed, ncmd):
         if o.kind != 'ret':
             m = vm.get_model(o.st)
             if m is not None:
-                _viol(env, N, cap, o.kind, ['script:returns'], t, api, m, detail=o.detail)
+                _viol(env, N, cap, o.kind, ['script:returns'], t, api, m, detail=o.detail, pre_calls=pre_calls)
             continue
         s1 = o.st
         cnt = to_bv(o.value, 64)
         bad = cnt != len(prog)
         if vm.feasible(s1, bad):
-            _viol(env, N, cap, 'clause', ['script:count'], t, api, vm.get_model(s1, bad))
+            _viol(env, N, cap, 'clause', ['script:count'], t, api, vm.get_model(s1, bad), pre_calls=pre_calls)
             continue
         A = _abstract(w, vm, s1, N, cap)
         paired = 0
@@ -533,21 +598,21 @@ def ob_script(env, N, cap, seed, ncmd):
             ok, model = vm.solver.oneshot(s2.pc, z3.Not(conj))
             if ok:
                 failing = [nm_ for nm_, f in cl if not z3.is_true(model.eval(f, model_completion=True))] or [cl[0][0]]
-                _viol(env, N, cap, 'clause', failing, t, api, model)
+                _viol(env, N, cap, 'clause', failing, t, api, model, pre_calls=pre_calls)
         if not paired:
             raise Inconclusive("no reference path is compatible with a script path")
     env.cover('the script was deployed', n >= 1)
     env.sample({'op': 'deploy vs direct calls', 'N': N, 'cap': cap, 'seed': seed, 'program': [list(map(str, c)) for c in prog], 'text skeleton (c label char, 9 digit, f/F hex digit, G g two-byte char, ␣ symbolic white space, · comment char)': skel,
-                'symbolic bytes': sum(1 for x in t.cells if not isinstance(x, int)), 'script paths': n, 'reference paths': len(refs)})
-    env.account(w)
+                'symbolic bytes': sum(1 for x in t.cells if not isinstance(x, int)), 'script paths': n, 'reference paths': len(refs),
+                'commands applied through the API before the script (non-empty start)': npre, 'start states': nstarts})
 
 
-def _viol(env, N, cap, kind, clauses, t, api, model, detail=None, extra=None):
+def _viol(env, N, cap, kind, clauses, t, api, model, detail=None, extra=None, pre_calls=None):
     if model is None:
         return
     text = list(_conc_text(t.cells, model))
     cc = {'op': 'deploy', 'text': text}
-    job = {'n': N, 'cap': cap, 'pre': None, 'calls': [cc], 'expect': _conc_api(api, model)}
+    job = {'n': N, 'cap': cap, 'pre': None, 'calls': (pre_calls(model) if pre_calls else []) + [cc], 'expect': _conc_api(api, model)}
     if extra:
         job.update(extra)
     env.violation(kind=kind, clauses=clauses, props=['C14'] + (['C07'] if kind in ('memerr',) else []), call={'op': 'deploy', 'text': bytes(text).decode('utf-8', 'replace')}, job=job, detail=detail)
@@ -557,7 +622,7 @@ def _viol(env, N, cap, kind, clauses, t, api, model, detail=None, extra=None):
 
 def ob_fault(env, N, cap, seed, ncmd, pos_seed):
     rnd = random.Random(seed)
-    prog = gen_program(rnd, cap, N, ncmd)
+    prog, _vars = gen_program(rnd, cap, N, ncmd)
     t, api = render(prog, rnd, max_symws=0)
     # make the rendering concrete: fixed values for the payload
     fill = random.Random(seed + 1)
@@ -572,9 +637,11 @@ def ob_fault(env, N, cap, seed, ncmd, pos_seed):
     base = list(_conc_text(t.cells, m0))
     ascii_pos = [i for i, b in enumerate(base) if b < 0x80]
     prnd = random.Random(pos_seed)
-    # prefer structural positions half of the time
-    structural = [i for i in ascii_pos if chr(base[i]) in '();,$#ABDINPTU-\n ']
-    p = prnd.choice(structural if (structural and prnd.random() < 0.6) else ascii_pos)
+    # the position is drawn per category of byte (command letter, parenthesis, comma, id digit, hex high / low digit, ...),
+    # the categories taking turns, so that a few dozen draws visit every kind of fault
+    cats = sorted({t.tags[i] for i in ascii_pos})
+    cat = cats[pos_seed % len(cats)]
+    p = prnd.choice([i for i in ascii_pos if t.tags[i] == cat])
     b = z3.BitVec('fault', 8)
     st.assume(z3.And(z3.ULT(b, 0x80), b != base[p]))
     vm.opts['domains'] = {'fault': [x for x in range(128) if x != base[p]]}
@@ -630,7 +697,7 @@ def ob_fault(env, N, cap, seed, ncmd, pos_seed):
             if _within(cmds, cap, N) and vm.feasible(o.st, val != len(cmds)):
                 _fviol(env, N, cap, 'clause', ['fault:count'], txt, cmds)
     env.cover('the corrupted script was processed', n >= 1)
-    env.sample({'op': 'deploy of a text with one symbolic ASCII byte', 'N': N, 'cap': cap, 'seed': seed, 'text': bytes(base).decode('utf-8'), 'position': p, 'original byte': base[p], 'paths': n, 'outcomes': kinds})
+    env.sample({'op': 'deploy of a text with one symbolic ASCII byte', 'N': N, 'cap': cap, 'seed': seed, 'text': bytes(base).decode('utf-8'), 'position': p, 'kind of byte': cat, 'original byte': base[p], 'paths': n, 'outcomes': kinds})
     env.account(w)
 
 
@@ -642,10 +709,10 @@ def _api_of(c):
     return ('PUT', c[1], list(c[2]))
 
 
-def _sim(cmds, cap, N):
+def _sim(cmds, cap, N, ref=None):
     """run reference commands on the reference model; returns (Ref, within_limits)"""
     from . import refmodel
-    ref = refmodel.Ref(cap, N)
+    ref = ref or refmodel.Ref(cap, N)
     vt = {}
 
     def rid(r):
@@ -689,18 +756,28 @@ def judge_script(job, lines, crashed, stderr=''):
     commands before the fault), otherwise the count and the state the direct calls give on the reference model"""
     from . import refmodel
     out = []
-    c0 = job['calls'][0]
+    c0 = job['calls'][-1]
     txt = bytes(c0['text']).decode('utf-8')
     cmds, bad = ref_parse(txt)
     cap, N = job['cap'], job['n']
-    ref, within = _sim(cmds, cap, N)
+    ref0 = refmodel.Ref(cap, N)
+    try:
+        for c in job['calls'][:-1]:
+            if c['op'] == 'next_id':
+                cand = [i for i in range(ref0.pos, cap) if i not in ref0.present]
+                ref0.pos = cand[0] + 1
+            else:
+                ref0.call(c)
+    except (refmodel.Limit, IndexError):
+        return [], {'note': 'the prefix leaves the limits'}
+    ref, within = _sim(cmds, cap, N, ref0)
     if not within:
         return [], {'note': 'the program leaves the limits'}
-    if len(lines) < 2:
+    if len(lines) < len(job['calls']) + 1:
         m = [l for l in stderr.splitlines() if 'panicked' in l]
         return ["deploy_to panicked on %s text %r: %s" % ('the malformed' if bad else 'the well-formed', txt, (m[-1] if m else stderr[-200:]).strip())], {}
-    ret = lines[1]['ret']
-    snap = lines[1]['snap']
+    ret = lines[-1]['ret']
+    snap = lines[-1]['snap']
     if bad is not None:
         if ret.get('ok'):
             out.append("the malformed text %r (%s) is accepted with count %r" % (txt, bad, ret.get('count')))
@@ -726,7 +803,9 @@ def tasks(tier):
     nq, nf = (16, 32) if tier == 'quick' else (150, 300)
     for k in range(nq):
         ncmd = 2 + k % 5
-        ts.append(Task("deploy == calls: program %d (%d commands) N=2 cap=5" % (k, ncmd), 'seir.pscript:ob_script', N=2, cap=5, seed=1000 + k, ncmd=ncmd, _weight=10 * ncmd))
+        pre = (0, 2, 0, 3)[k % 4]
+        ts.append(Task("deploy == calls: program %d (%d commands%s) N=2 cap=5" % (k, ncmd, (' after %d direct calls' % pre) if pre else ''), 'seir.pscript:ob_script', N=2, cap=5, seed=1000 + k, ncmd=ncmd,
+                       prefix=pre, _weight=10 * ncmd))
     for k in range(nf):
         ncmd = 2 + k % 3
         ts.append(Task("single fault: program %d (%d commands), position draw %d" % (k % 12, ncmd, k), 'seir.pscript:ob_fault', N=2, cap=5, seed=2000 + k % 12, ncmd=ncmd, pos_seed=k, _weight=8 * ncmd))
